@@ -125,6 +125,38 @@ func (in *instr) funcLits(n ast.Node) {
 	})
 }
 
+// commChannel returns the channel expression of a select communication and whether it is a send.
+func commChannel(s ast.Stmt) (ast.Expr, bool) {
+	switch v := s.(type) {
+	case *ast.SendStmt:
+		return v.Chan, true
+	case *ast.ExprStmt:
+		if u, ok := v.X.(*ast.UnaryExpr); ok && u.Op == token.ARROW {
+			return u.X, false
+		}
+	case *ast.AssignStmt:
+		if len(v.Rhs) == 1 {
+			if u, ok := v.Rhs[0].(*ast.UnaryExpr); ok && u.Op == token.ARROW {
+				return u.X, false
+			}
+		}
+	}
+	return nil, false
+}
+
+// simpleExpr: identifiers and field selections only (evaluating it twice has no side effect).
+func simpleExpr(e ast.Expr) bool {
+	switch v := e.(type) {
+	case *ast.Ident:
+		return true
+	case *ast.SelectorExpr:
+		return simpleExpr(v.X)
+	case *ast.ParenExpr:
+		return simpleExpr(v.X)
+	}
+	return false
+}
+
 func callsPkg(n ast.Node, pkgs ...string) bool {
 	found := false
 	if n == nil {
@@ -200,13 +232,35 @@ func (in *instr) stmt(s ast.Stmt, inList bool) {
 		}
 	case *ast.SelectStmt:
 		n := 0
+		simple := true
+		hasDefault := false
+		var chans, sends []string
 		for _, c := range v.Body.List {
-			if c.(*ast.CommClause).Comm != nil {
-				n++
+			cc := c.(*ast.CommClause)
+			if cc.Comm == nil {
+				hasDefault = true
+				continue
 			}
+			n++
+			ch, send := commChannel(cc.Comm)
+			if ch == nil || !simpleExpr(ch) {
+				simple = false
+				continue
+			}
+			chans = append(chans, string(in.src[in.fset.Position(ch.Pos()).Offset:in.fset.Position(ch.End()).Offset]))
+			sends = append(sends, fmt.Sprint(send))
 		}
 		if inList && !in.crash {
-			in.addPoint(v.Pos(), "select", n)
+			if simple && n >= 1 && !(n == 1 && hasDefault) {
+				// the channels are plain variables / fields: let the scheduler see which cases are ready
+				id := *in.nextID
+				*in.nextID++
+				p := in.fset.Position(v.Pos())
+				*in.points = append(*in.points, point{ID: id, File: in.file, Line: p.Line, Func: in.funcName, Kind: "select", Cases: n})
+				in.ins = append(in.ins, insertion{p.Offset, fmt.Sprintf("vhook.PSC(%d, []interface{}{%s}, []bool{%s}, %v); ", id, strings.Join(chans, ", "), strings.Join(sends, ", "), hasDefault)})
+			} else {
+				in.addPoint(v.Pos(), "select", n)
+			}
 		}
 		for i, c := range v.Body.List {
 			cc := c.(*ast.CommClause)
